@@ -20,8 +20,10 @@ ZP = None
 WRITER_FORMAT = {"SRTWriter": "SRTReader", "WebVTTWriter": "WebVTTReader", "DFXPWriter": "DFXPReader",
                  "SinglePositioningDFXPWriter": "DFXPReader", "LegacyDFXPWriter": "DFXPReader",
                  "SAMIWriter": "SAMIReader", "MicroDVDWriter": "MicroDVDReader", "SCCWriter": "SCCReader"}
-MARKER_ALPHABET = list("0123456789\n{}<>/-: \t") + list("WEBVTT") + list("sami") + list("tt") + list("Scenarist_SCC V1.0")
-FAULT_KINDS = ["torn_prefix", "torn_byte_prefix", "torn_suffix", "lost_write", "stale_tail", "misdirected_concat",
+MARKER_ALPHABET = list("0123456789\n{}<>/-: \t\r\0\ufeff\u2028") + list("WEBVTT") + list("sami") + list("tt") + list("Scenarist_SCC V1.0")
+ENCODINGS = ["bom", "crlf", "bom+crlf", "cr", "nul_padding", "leading_newlines", "trailing_space_lines", "upper", "lower",
+             "double_bom", "bom_mid"]
+FAULT_KINDS = ["transfer_encoding", "torn_prefix", "torn_byte_prefix", "torn_suffix", "lost_write", "stale_tail", "misdirected_concat",
                "duplicated_block", "dropped_block", "corrupted_char", "inserted_char", "deleted_char"]
 
 
@@ -37,6 +39,32 @@ def apply_fault(f, docs_by_name):
         return a[f[2]:]
     if kind == "torn_byte_prefix":
         return a.encode("utf-8")[: f[2]].decode("utf-8", "replace")
+    if kind == "transfer_encoding":
+        # what a store / transfer layer does to text: byte-order mark, line-ending conversion, block padding,
+        # case folding of a case-insensitive medium; then (optionally) torn at offset k of the transformed text
+        enc, k = f[2], f[3]
+        t = a
+        if enc in ("crlf", "bom+crlf"):
+            t = t.replace("\r\n", "\n").replace("\n", "\r\n")
+        if enc == "cr":
+            t = t.replace("\r\n", "\n").replace("\n", "\r")
+        if enc in ("bom", "bom+crlf"):
+            t = "\ufeff" + t
+        if enc == "double_bom":
+            t = "\ufeff\ufeff" + t
+        if enc == "bom_mid":
+            t = t[: len(t) // 2] + "\ufeff" + t[len(t) // 2:]
+        if enc == "nul_padding":
+            t = t + "\0" * (512 - len(t) % 512)
+        if enc == "leading_newlines":
+            t = "\n\n" + t
+        if enc == "trailing_space_lines":
+            t = "\n".join(x + " " for x in t.split("\n"))
+        if enc == "upper":
+            t = t.upper()
+        if enc == "lower":
+            t = t.lower()
+        return t if k is None else t[:k]
     if kind == "lost_write":
         return "" if f[2] is None else docs_by_name[f[2]]
     if kind == "stale_tail":          # new document a[:k] written over old b without truncation
@@ -73,6 +101,12 @@ def expand(fspec, docs_by_name):
         b = a.encode("utf-8")
         # only offsets that fall inside a multi-byte sequence (the others equal a char prefix)
         return [["torn_byte_prefix", name, k] for k in range(1, len(b)) if (b[k] & 0xC0) == 0x80]
+    if kind == "all_encodings":
+        out = []
+        for enc in ENCODINGS:
+            out.append(["transfer_encoding", name, enc, None])
+            out += [["transfer_encoding", name, enc, k] for k in range(0, min(len(a), 48))]
+        return out
     if kind == "all_line_drops":
         n = len(a.split("\n"))
         return [["dropped_block", name, i, i + 1] for i in range(n)]
@@ -380,7 +414,8 @@ def _run(seed, tier, a, t0, evidence_path):
         jobs = []
         # (a) enumerated: every torn-write offset, every single dropped / duplicated line
         for n in allnames:
-            fs = [["all_prefixes", n], ["all_byte_prefixes", n], ["all_line_drops", n], ["all_line_dups", n], ["lost_write", n, None]]
+            fs = [["all_prefixes", n], ["all_byte_prefixes", n], ["all_line_drops", n], ["all_line_dups", n], ["lost_write", n, None],
+                  ["all_encodings", n]]
             if not quick:
                 fs.append(["all_suffixes", n])
             jobs.append({"docs": {n: alldocs[n]}, "faults": fs})
